@@ -208,6 +208,8 @@ def job_module(cfg):
             inv = (lambda z: m.inverse(z, ctx) if ctx is not None else m.inverse(z))
             first, second = (fwd, inv) if order in ("if", "f") else (inv, fwd)
             _box_assume(case.rt_box.get(({"f": "if", "i": "fi"}.get(order, order), "start")), x)
+            for a in case.rt_assume.get((order, "start"), lambda z: [])(x):
+                explore.assume(a)
             mid, l1 = first(x)
             if order in ("f", "i"):
                 return mid, l1, l1
@@ -275,6 +277,7 @@ def replay_module(case, order, relation, leaves):
 
 # ---------------------------------------------------------------------------------------------
 def job_spline(cfg):
+    SK.USE_FLOORS[0] = bool(cfg.get("floors"))
     kind, K, mode, box, order = cfg["kind"], cfg["K"], cfg["mode"], cfg["box"], cfg["order"]
     timeout = cfg["timeout"]
     R = sc.new_registry()
@@ -302,7 +305,7 @@ def job_spline(cfg):
     jr["paths"] = len(results)
     jr["prune_queries"] = ex.stats["prune_queries"]
     jr["uncertain_paths"] = sum(1 for r in results if r.path.uncertain)
-    sig = {"K": K, "box": box, "order": order}
+    sig = {"K": K, "box": box, "order": order, "floors": bool(cfg.get("floors"))}
     start_terms = [h["x"].a[0].t]
 
     def replay_fn(relation, leaves):
@@ -370,6 +373,7 @@ def replay_spline(kind, K, mode, order, relation, leaves):
 
 
 def replay_entry(kernel, signature, relation, leaves):
+    SK.USE_FLOORS[0] = bool(signature.get("floors"))
     if "case" in signature:
         return replay_module(CS.by_name(signature["case"]), signature["order"], relation, leaves)
     kind, mode = kernel.split("_spline/")
@@ -409,6 +413,8 @@ def configs(tier):
                     if tier == "quick" and kind == "quadratic" and K == 2 and mode == "box" and order == "fi":
                         continue  # undecided within the quick caps; thorough tier only
                     cfgs.append({"type": "spline", "kind": kind, "K": K, "mode": mode, "box": box, "order": order, "timeout": t, "decide_timeout": 8 if tier == "quick" else 30})
+    for order in ("f", "i", "fi"):
+        cfgs.append({"type": "spline", "kind": "rq", "K": 2, "mode": "box", "box": "unit", "floors": True, "order": order, "timeout": t, "decide_timeout": 8})
     for c in CS.cases_for(tier):
         spline_based = "Piecewise" in c.name or "CompositeCDF" in c.name
         if "PiecewiseCubic" in c.name or ("PiecewiseQuadratic" in c.name and tier == "quick"):
@@ -417,7 +423,7 @@ def configs(tier):
         elif c.name.startswith("SqueezeTransform"):
             orders = ("f", "if")  # the stand-alone inverse needs an input of the squeezed shape; covered by "if"
         elif c.name.startswith("LogTanh"):
-            orders = ("f",)  # exp/log atoms with enclosed constants: the inverse's path conditions are undecided by nlsat
+            orders = ("f", "i", "fi", "if")
         elif spline_based and tier == "quick" and not ("K=1" in c.name or "Coupling/K=2" in c.name):
             orders = ("f",)
         elif spline_based:
